@@ -387,6 +387,7 @@ impl Interp {
         let mut c03 = false;
         let mut c04 = false;
         let mut c13 = false;
+        let mut c06 = false;
         let empty = json!({"tracks": [], "epochs": []});
         let mut before = &empty;
         for s in steps {
@@ -399,6 +400,9 @@ impl Interp {
             });
             if pending && ["idle", "wasted", "stats", "predict", "batch"].contains(&op) {
                 c03 = true;
+            }
+            if op == "batch" && jarr(o, "b").len() >= 2 {
+                c06 = true;
             }
             let lists: Vec<(&Value, Vec<Value>)> = match op {
                 "predict" => vec![(jget(s, "ret"), jarr(o, "dets").clone())],
@@ -427,7 +431,7 @@ impl Interp {
             }
             before = jget(s, "proj");
         }
-        for (k, v) in [("nt_C01", c01), ("nt_C03", c03), ("nt_C04", c04), ("nt_C13", c13)] {
+        for (k, v) in [("nt_C01", c01), ("nt_C03", c03), ("nt_C04", c04), ("nt_C13", c13), ("nt_C06", c06)] {
             if v {
                 rep.count(k, 1);
             }
@@ -522,6 +526,15 @@ pub fn cfg_from_opts(opts: &Opts) -> Cfg {
 pub fn main(opts: &Opts) {
     let cfg = cfg_from_opts(opts);
     let sched = opts.str("sched", "none");
+    let delay_us = opts.u64("delay-us", 0);
+    let delay_ctl = if sched == "none" && delay_us > 0 {
+        // free-running threads with seeded random delays at every hook site
+        let c = crate::gates::Ctl::install();
+        c.set_delays(opts.u64("seed", 1), delay_us);
+        Some(c)
+    } else {
+        None
+    };
     let (ctl, handle) = if sched != "none" {
         let ctl = crate::gates::Ctl::install();
         let h = ctl.spawn_scheduler(&sched, opts.u64("seed", 1));
@@ -536,6 +549,9 @@ pub fn main(opts: &Opts) {
         stop.store(true, std::sync::atomic::Ordering::SeqCst);
         ctl.open_all();
         let _ = h.join();
+        crate::gates::Ctl::uninstall();
+    }
+    if delay_ctl.is_some() {
         crate::gates::Ctl::uninstall();
     }
     rep.finish();
